@@ -402,7 +402,7 @@ public:
     // ---------------------------------------------------------------- one operation
     // returns the textual result; exceptions propagate to run()
     std::string exec(const std::string& op, int want, const std::vector<std::string>& a);
-    std::string execView(const std::string& op, const std::vector<std::string>& a, bool& handled);
+    std::string execView(const std::string& op, int want, const std::vector<std::string>& a, bool& handled);
 
     void run(const Case& c) {
         chkEvery = c.geti("chk", 1); dumpEvery = c.geti("dump", 0); quietN = c.geti("quiet", 0);
@@ -638,13 +638,13 @@ std::string Interp::exec(const std::string& op, int want, const std::vector<std:
         return "-";
     }
     bool handled = false;
-    std::string r = execView(op, a, handled);
+    std::string r = execView(op, want, a, handled);
     if (handled) return r;
     throw std::string("BADOP:" + op);
 }
 
 // ------------------------------------------------------------------------------------ views (C14)
-std::string Interp::execView(const std::string& op, const std::vector<std::string>& a, bool& handled) {
+std::string Interp::execView(const std::string& op, int want, const std::vector<std::string>& a, bool& handled) {
     handled = true;
     #define NEEDV(k) if (a.size() < (k)) throw std::string("ARGS:" + op)
     if (op == "mkIter" || op == "mkWalker") {       // mkIter v root whatToShow filterKind expandEntityRefs
@@ -780,7 +780,6 @@ std::string Interp::execView(const std::string& op, const std::vector<std::strin
         if (m == "insertNode") { NEEDV(3); r->insertNode(node(a[2])); return "-"; }
         if (m == "surround") { NEEDV(3); r->surroundContents(node(a[2])); return "-"; }
         if (m == "extract" || m == "cloneContents" || m == "cloneRange") {
-            int want = a.size() > 2 ? atoi(a[2].c_str() + 1) : -1;
             if (m == "extract") return result(r->extractContents(), want);
             if (m == "cloneContents") return result(r->cloneContents(), want);
             NEEDV(3);
